@@ -243,6 +243,15 @@ example : (Cqm.crun? (some { vt := [.integer, .binary, .spin], lb := [0, 0, -1],
 
 example : ({} : Cqm).cstep? (.removeConstraint 0) = none := rfl
 
+/-- non-vacuity of the hypotheses of `cqm_histories_no_ub_from_empty`: a sequence from the empty model in which every call
+    meets its precondition in the state it is issued in (the second constraint exists when it is edited and removed) -/
+example : Cqm.PreAll {} [.addConstraint, .addConstraint, .consOp 1 (.addQuadratic 0 1 (1/2)), .swapConstraints 0 1,
+    .objOp (.addLinear 2 1), .removeConstraint 1] := by
+  refine ⟨trivial, trivial, ?_, ?_, trivial, ?_, trivial⟩
+  · show (1 : Nat) < _; decide +kernel
+  · show (0 : Nat) < _ ∧ (1 : Nat) < _; exact ⟨by decide +kernel, by decide +kernel⟩
+  · show (1 : Nat) < _; decide +kernel
+
 example : (({ vt := [.binary], lb := [0], ub := [1] } : Cqm).cstep? (.removeVariable 3)).isSome = false := by
   decide +kernel
 
